@@ -176,7 +176,9 @@ prop('C01', level='other', design_ref='DESIGN.md section 6 (C01)',
      bounded=[{'obligation': 'index.c01.bounded', 'driver': 'index_scenario.py', 'request': {'mode': 'c01', 'rounds': 12},
                'what': 'UTXOs, balances, counts, tip, chain size, headers, per-block tx hashes equal the clean index; restart',
                'bound': '12 (thorough: 72) generated chains of 3-13 blocks (same-block spends, OP_RETURN both sides of a lowered '
-                        'activation height, zero values, empty/duplicate scripts) x random flush schedule x chunk sizes'}],
+                        'activation height, zero values, empty/duplicate scripts) x random flush schedule x chunk sizes; every sixth '
+                        'scenario: two flushed outputs sharing the 4-byte compressed hash and the index (birthday search), same '
+                        'or different script, spent in either order, with restarts'}],
      not_decided=['advance_block, spend_utxo, flush_utxo_db not under deductive contract'], assumptions=[])
 prop('C03', level='other', design_ref='DESIGN.md section 6 (C03)',
      technique='deductive verification of the reorg arithmetic/pointer functions + bounded native reorg scenarios with an '
